@@ -46,7 +46,7 @@ def raster_event(rng):
         for line in lines:
             pts = m.sample_path([float(v) for v in line])
             paths.append({"line": line, "pts": [[int(round(p[0])), int(round(p[1])), zq(p[2])] for p in pts]})
-        return {"kind": "raster", "w": w, "h": h, "max": mx, "scale": zq(scale), "tol": zq(tol), "img": img.astype(int).tolist(),
+        return {"kind": "raster", "exact": False, "w": w, "h": h, "max": mx, "scale": zq(scale), "tol": zq(tol), "img": img.astype(int).tolist(),
                 "pts": [], "queries": queries, "paths": paths}
     out = [measure(rng.choice([0.5, 1.0, 2.0, 10.0]), rng.choice([0.05, 0.2, 0.5, 1.0, 3.0]))]
     if rng.random() < 0.5:      # the same map object re-scaled and asked the same questions again (added after seed C19d)
@@ -89,6 +89,34 @@ def sparse_event(rng):
     return out
 
 
+def staircase_event(rng):
+    """A sparse map whose heights step by exactly the tolerance from one sample to the next (added after seed C19i: `>` for
+    `>=` in the path filter): whole-number probe data z = step * x on an integer grid, lines along X.  Every sample then
+    differs from its neighbour by exactly one tolerance and has to be kept.  The event is marked exact only if the recorder's
+    own floating-point evaluation confirms that every candidate height is the exact value."""
+    from gscrib.heightmaps import SparseHeightMap
+    step = rng.choice([1.0, 0.5, 2.0])
+    nx, ny = rng.randint(4, 7), rng.randint(3, 5)
+    P = [[x, y, step * x] for x in range(nx + 1) for y in range(ny + 1)]
+    m = SparseHeightMap(np.array(P, dtype=float))
+    y0 = rng.randint(1, ny - 1)
+    xv = rng.randint(0, nx)
+    lines = [[0, y0, nx, y0], [nx, y0, 1, y0], [xv, 0, xv, ny]]
+    qxy = [(p[0], p[1], 1) for p in P[:10]]
+    tol = step if step <= 1.0 else 1.0
+    # spacing of the candidates is the tolerance; heights step by `step * tol` per sample: equal to the tolerance when step = 1,
+    # half of it (dropped every other one) when step = 0.5, twice (all kept) when step = 2
+    ev = _sparse_measure(m, P, qxy, lines, 1.0, tol)
+    exact = True
+    for line, pth in zip(lines, ev["paths"]):
+        for c in pth["cand"]:
+            x, y = c[0] / 1000.0, c[1] / 1000.0
+            if float(m.get_depth_at(x, y)) != step * x or 2 * x != round(2 * x) or 2 * y != round(2 * y):
+                exact = False
+    ev["exact"] = bool(exact)
+    return [ev]
+
+
 def _sparse_measure(m, P, qxy, lines, scale, tol):
     m.set_scale(scale)
     m.set_tolerance(tol)
@@ -105,7 +133,7 @@ def _sparse_measure(m, P, qxy, lines, scale, tol):
             cand.append([zq(x), zq(y), zq(m.get_depth_at(x, y))])
         paths.append({"line": [v * 1000 for v in line], "pts": [[zq(p[0]), zq(p[1]), zq(p[2])] for p in pts],
                       "requery": [zq(m.get_depth_at(float(p[0]), float(p[1]))) for p in pts], "cand": cand})
-    return {"kind": "sparse", "w": 0, "h": 0, "max": 1, "scale": zq(scale), "tol": zq(tol), "img": [],
+    return {"kind": "sparse", "exact": False, "w": 0, "h": 0, "max": 1, "scale": zq(scale), "tol": zq(tol), "img": [],
             "pts": [[p[0], p[1], zq(p[2])] for p in P], "queries": queries, "paths": paths}
 
 
@@ -118,7 +146,7 @@ def flat_event(rng):
         line = [rng.randint(-20, 20) for _ in range(4)]
         pts = m.sample_path([float(v) for v in line])
         paths.append({"line": [v * 1000 for v in line], "pts": [[zq(p[0]), zq(p[1]), zq(p[2])] for p in pts], "requery": [], "cand": []})
-    return {"kind": "flat", "w": 0, "h": 0, "max": 1, "scale": 1000, "tol": 0, "img": [], "pts": [], "queries": queries, "paths": paths}
+    return {"kind": "flat", "exact": False, "w": 0, "h": 0, "max": 1, "scale": 1000, "tol": 0, "img": [], "pts": [], "queries": queries, "paths": paths}
 
 
 def _chunk(job):
@@ -128,6 +156,7 @@ def _chunk(job):
         rng = random.Random(sd * 6007 + k + i)
         ev += raster_event(rng) if (k + i) % 2 == 0 else sparse_event(rng)
     ev.append(flat_event(random.Random(sd * 3 + k)))
+    ev += staircase_event(random.Random(sd * 11 + k))
     return ev
 
 
